@@ -15,6 +15,7 @@
 package c15
 
 import (
+	"os"
 	"bufio"
 	"context"
 	"fmt"
@@ -45,11 +46,11 @@ func TestVerif(t *testing.T) {
 	defer r.Close()
 	selfCheckClasses(t)
 
-	nA := r.N(160, 4000)
+	nA := r.N(400, 10000)
 	for i := 0; i < nA; i++ {
 		r.Run(i, fmt.Sprintf("direct-%d", i), func(c *rep.Case) { runDirect(t, r, c, i) })
 	}
-	nB := r.N(64, 1600)
+	nB := r.N(128, 3200)
 	for i := 0; i < nB; i++ {
 		r.Run(groupB+i, fmt.Sprintf("e2e-%d", i), func(c *rep.Case) { runE2E(t, r, c, groupB+i) })
 	}
@@ -105,13 +106,19 @@ type cfgCase struct {
 	pRepl   string
 
 	authNorm, fromNorm string
+	e2e                bool // bias towards messages that can get through an endpoint
 
 	users []name // identities in play (table keys and others)
 	addrs []name // address classes in play
 }
 
+// quote wraps a configuration argument in quotes; the generated names contain
+// neither quotes nor backslashes (the lexer only knows the \" escape).
 func quote(s string) string {
-	return `"` + strings.NewReplacer(`\`, `\\`, `"`, `\"`).Replace(s) + `"`
+	if strings.ContainsAny(s, "\"\\") {
+		panic("harness: unquotable argument " + s)
+	}
+	return `"` + s + `"`
 }
 
 var allNormalizers = []string{"auto", "auto", "auto", "auto", "precis_casefold_email", "precis_casefold", "precis_email", "precis", "casefold", "noop"}
@@ -175,6 +182,30 @@ func (c *cfgCase) entitled(userCanon, addrCanon string) bool {
 	return false
 }
 
+// fullNormalizer says whether a from_normalize setting maps every spelling the
+// harness generates onto the canonical one (RFC 8265 case mapping + IDN
+// U-label form). Under the weaker settings a non-canonical spelling is, by
+// the administrator's choice, a different string: it misses the prepare_email
+// key of its class and is then matched as it is.
+func fullNormalizer(n string) bool { return n == "auto" || n == "precis_casefold_email" }
+
+// entitledSpelled is the reference for one spelled address. With a full
+// normaliser (or the canonical spelling) it is exactly entitled(); otherwise
+// acceptance is also legitimate when the address is entitled without
+// prepare_email (the liberal bound for the weak setting).
+func (c *cfgCase) entitledSpelled(userCanon string, a name, spelling string) bool {
+	if c.entitled(userCanon, a.canon()) {
+		return true
+	}
+	if fullNormalizer(c.fromNorm) || spelling == a.canon() || c.pKind == "identity" {
+		return false
+	}
+	saved := c.pKind
+	c.pKind = "identity"
+	defer func() { c.pKind = saved }()
+	return c.entitled(userCanon, a.canon())
+}
+
 func genConfig(p *prng.R) *cfgCase {
 	c := &cfgCase{}
 	// universe of this case: 4 locals x 3 domains
@@ -221,7 +252,7 @@ func genConfig(p *prng.R) *cfgCase {
 		c.uStatic = map[string][]string{}
 		b.WriteString("user_to_email static {\n")
 		for _, u := range c.users {
-			if p.Chance(1, 5) {
+			if p.Chance(1, 8) {
 				continue
 			}
 			var vals []string
@@ -312,7 +343,24 @@ func genConfig(p *prng.R) *cfgCase {
 	return c
 }
 
-// entitledAddrs / foreignAddrs partition the address universe for a user.
+// pickUser prefers identities that are entitled to something (otherwise every
+// message is trivially refused).
+func (c *cfgCase) pickUser(p *prng.R, pool []name) name {
+	if p.Chance(4, 5) {
+		var some []name
+		for _, u := range pool {
+			if e, _ := c.partition(u.canon()); len(e) > 0 {
+				some = append(some, u)
+			}
+		}
+		if len(some) > 0 {
+			return prng.Pick(p, some)
+		}
+	}
+	return prng.Pick(p, pool)
+}
+
+// partition splits the address universe into entitled / foreign for a user.
 func (c *cfgCase) partition(userCanon string) (ent, foreign []name) {
 	for _, a := range c.addrs {
 		if c.entitled(userCanon, a.canon()) {
@@ -324,6 +372,44 @@ func (c *cfgCase) partition(userCanon string) (ent, foreign []name) {
 	return
 }
 
+// relation names how an address the user is NOT entitled to relates to what
+// the user is entitled to (cause class for signatures).
+func (c *cfgCase) relation(userCanon string, a name) string {
+	vals := c.userValues(userCanon)
+	via := ""
+	if pr := c.prepare(a.canon()); len(pr) != 1 || pr[0] != a.canon() {
+		via = "/address-has-prepare-mapping"
+	}
+	for _, v := range vals {
+		if !strings.Contains(v, "@") && v != "*" {
+			if strings.HasSuffix(a.domain, "."+v) {
+				return "subdomain-of-entitled-domain" + via
+			}
+			if strings.HasPrefix(a.domain, v+".") {
+				return "entitled-domain-is-prefix-of-domain" + via
+			}
+		}
+	}
+	for _, v := range vals {
+		if i := strings.LastIndexByte(v, '@'); i >= 0 {
+			if v[:i] == a.local {
+				return "entitled-local-part-in-other-domain" + via
+			}
+		}
+	}
+	for _, v := range vals {
+		if i := strings.LastIndexByte(v, '@'); i >= 0 {
+			if v[i+1:] == a.domain {
+				return "other-mailbox-in-domain-of-entitled-address" + via
+			}
+		}
+	}
+	if len(vals) == 0 {
+		return "user-has-no-entitlement" + via
+	}
+	return "unrelated-address" + via
+}
+
 // ---------------- messages ----------------
 
 type mailbox struct {
@@ -333,6 +419,7 @@ type mailbox struct {
 	Kinds    string `json:"kinds"`
 	Deco     string `json:"decoration"`
 	Entitled bool   `json:"entitled"`
+	Relation string `json:"relation_if_foreign,omitempty"`
 }
 
 type field struct {
@@ -350,6 +437,8 @@ type message struct {
 	MFKinds    string  `json:"mail_from_kinds"`
 	MFEntitled bool    `json:"mail_from_entitled"`
 	MFJudged   bool    `json:"mail_from_judged"`
+	MFRelation string  `json:"mail_from_relation_if_foreign,omitempty"`
+	mfAddr     name
 	Fields     []field `json:"fields"`
 	From       []field `json:"-"`
 	Sender     []field `json:"-"`
@@ -365,7 +454,7 @@ func (m *message) raw() string {
 	return b.String()
 }
 
-var fromKeys = []string{"From", "From", "From", "FROM", "from", "fRoM"}
+var fromKeys = []string{"From", "From", "From", "From", "FROM", "from", "fRoM", "From ", "From\t"}
 var senderKeys = []string{"Sender", "Sender", "SENDER", "sender"}
 
 func encodedWord(p *prng.R, s string) string {
@@ -458,17 +547,22 @@ func (c *cfgCase) pickAddr(p *prng.R, ent, foreign []name, wantEntitled bool) (n
 	return prng.Pick(p, foreign), false
 }
 
-func (c *cfgCase) addrField(p *prng.R, key string, n int, group bool, ent, foreign []name, entProb int, decoyPool []name) field {
+func (c *cfgCase) addrField(p *prng.R, userCanon, key string, n int, group bool, ent, foreign []name, entProb int, decoyPool []name) field {
 	f := field{Key: key}
 	var parts []string
 	for j := 0; j < n; j++ {
-		a, isEnt := c.pickAddr(p, ent, foreign, p.Chance(entProb, 10))
+		a, _ := c.pickAddr(p, ent, foreign, p.Chance(entProb, 10))
 		sp, kinds := a.spell(p)
+		isEnt := c.entitledSpelled(userCanon, a, sp)
 		decoy := prng.Pick(p, decoyPool)
 		dsp, _ := decoy.spell(p)
 		txt, deco := renderMailbox(p, sp, dsp)
 		parts = append(parts, txt)
-		f.Boxes = append(f.Boxes, mailbox{Addr: a, Class: a.canon(), Spelling: sp, Kinds: kinds, Deco: deco, Entitled: isEnt})
+		mb := mailbox{Addr: a, Class: a.canon(), Spelling: sp, Kinds: kinds, Deco: deco, Entitled: isEnt}
+		if !isEnt {
+			mb.Relation = c.relation(userCanon, a)
+		}
+		f.Boxes = append(f.Boxes, mb)
 	}
 	val := strings.Join(parts, ", ")
 	if group {
@@ -490,7 +584,7 @@ func (c *cfgCase) addrField(p *prng.R, key string, n int, group bool, ent, forei
 
 var malformedValues = []string{"", "<>", "garbage without address", "@example.org", "alice@", "=?utf-8?q?alice=40example.org?=", "undisclosed-recipients:;", "<alice@example.org", "a@b@c"}
 
-func (c *cfgCase) genMessage(p *prng.R, user name, authenticated bool) *message {
+func (c *cfgCase) genMessage(p *prng.R, user name, authenticated bool, mfEntProb int) *message {
 	m := &message{UserClass: user.canon()}
 	if authenticated {
 		m.AuthUser, _ = user.spell(p)
@@ -501,13 +595,17 @@ func (c *cfgCase) genMessage(p *prng.R, user name, authenticated bool) *message 
 	// envelope sender
 	switch p.Weighted([]int{20, 1, 1}) {
 	case 0:
-		a, isEnt := c.pickAddr(p, ent, foreign, p.Chance(7, 10))
+		a, _ := c.pickAddr(p, ent, foreign, p.Chance(mfEntProb, 20))
 		m.MailFrom, m.MFKinds = a.spell(p)
-		m.MFClass, m.MFEntitled, m.MFJudged = a.canon(), isEnt, true
+		m.MFClass, m.MFEntitled, m.MFJudged = a.canon(), c.entitledSpelled(user.canon(), a, m.MailFrom), true
+		m.mfAddr = a
+		if !m.MFEntitled {
+			m.MFRelation = c.relation(user.canon(), a)
+		}
 	case 1:
 		// The null reverse-path is not an address; it is judged only for users
 		// that have no "*" entitlement.
-		m.MailFrom, m.MFClass, m.MFKinds = "", "<>", "null"
+		m.MailFrom, m.MFClass, m.MFKinds, m.MFRelation = "", "<>", "null", "null-reverse-path"
 		m.MFJudged = true
 		for _, v := range c.userValues(user.canon()) {
 			if v == "*" {
@@ -521,6 +619,9 @@ func (c *cfgCase) genMessage(p *prng.R, user name, authenticated bool) *message 
 
 	// author fields
 	nFrom := []int{0, 1, 1, 1, 1, 1, 1, 1, 2, 2, 2, 3}[p.Intn(12)]
+	if c.e2e && nFrom != 1 && p.Bool() {
+		nFrom = 1
+	}
 	nSender := []int{0, 0, 0, 0, 0, 1, 1, 1, 1, 2}[p.Intn(10)]
 	var fields []field
 	for j := 0; j < nFrom; j++ {
@@ -541,13 +642,13 @@ func (c *cfgCase) genMessage(p *prng.R, user name, authenticated bool) *message 
 		if j > 0 {
 			entProb = 3
 		}
-		f := c.addrField(p, key, n, p.Chance(1, 10), ent, foreign, entProb, all)
+		f := c.addrField(p, user.canon(), key, n, p.Chance(1, 10), ent, foreign, entProb, all)
 		fields = append(fields, f)
 		m.From = append(m.From, f)
 	}
 	for j := 0; j < nSender; j++ {
 		key := prng.Pick(p, senderKeys)
-		f := c.addrField(p, key, 1, false, ent, foreign, 5, all)
+		f := c.addrField(p, user.canon(), key, 1, false, ent, foreign, 5, all)
 		m.Sender = append(m.Sender, f)
 		// position relative to From is random
 		pos := p.Intn(len(fields) + 1)
@@ -609,7 +710,7 @@ func (m *message) headerFacts() headerFacts {
 		case firstForeignPos > 0:
 			h.Cause = "foreign-address-later-in-first-from-field"
 		default:
-			h.Cause = "foreign-first-from-address/" + firstForeign.Deco + "/spelling=" + firstForeign.Kinds
+			h.Cause = "foreign-first-from-address/" + firstForeign.Deco + "/" + firstForeign.Relation
 			if m.From[0].Note == "group" {
 				h.Cause = "foreign-first-from-address/group"
 			}
@@ -673,9 +774,9 @@ func runDirect(t *testing.T, r *rep.Reporter, c *rep.Case, idx int) {
 
 	const perCase = 40
 	for mi := 0; mi < perCase; mi++ {
-		user := prng.Pick(p, cfg.users)
+		user := cfg.pickUser(p, cfg.users)
 		authenticated := !p.Chance(1, 10)
-		m := cfg.genMessage(p, user, authenticated)
+		m := cfg.genMessage(p, user, authenticated, 14)
 		raw := m.raw()
 		hdr, err := textproto.ReadHeader(bufio.NewReader(strings.NewReader(raw)))
 		if err != nil {
@@ -699,7 +800,6 @@ func runDirect(t *testing.T, r *rep.Reporter, c *rep.Case, idx int) {
 				"check_sender": map[string]any{"pass": passed(rs), "reason": reasonStr(rs)},
 				"check_body":   map[string]any{"pass": passed(rb), "reason": reasonStr(rb)}}
 		}
-		tbl := "u=" + cfg.uKind + "/p=" + cfg.pKind
 		k.sender++
 		k.body++
 		if len(m.From) > 1 {
@@ -733,7 +833,16 @@ func runDirect(t *testing.T, r *rep.Reporter, c *rep.Case, idx int) {
 		if passed(rs) {
 			k.senderPass++
 			if m.MFJudged && !m.MFEntitled {
-				c.Violation(fmt.Sprintf("mail-from/accepted-not-entitled/%s/spelling=%s", tbl, m.MFKinds),
+				cause := m.MFRelation
+				if m.mfAddr.local != "" && m.MailFrom != m.mfAddr.canon() {
+					// attribution: is the canonical spelling refused?
+					st2, _ := chk.CheckStateForMsg(ctx, meta)
+					if !passed(st2.CheckSender(ctx, m.mfAddr.canon())) {
+						cause += "/only-with-spelling=" + m.MFKinds
+					}
+					st2.Close()
+				}
+				c.Violation("mail-from/accepted-not-entitled/"+cause,
 					fmt.Sprintf("CheckSender passed MAIL FROM %q (class %s) for user %q (class %s) who is not entitled to it", m.MailFrom, m.MFClass, m.AuthUser, m.UserClass), wit())
 			} else if m.MFEntitled {
 				k.senderPassEntitled++
@@ -741,6 +850,12 @@ func runDirect(t *testing.T, r *rep.Reporter, c *rep.Case, idx int) {
 			}
 		} else if m.MFEntitled {
 			k.senderRejectEntitled++
+			if cfg.authNorm == "auto" && cfg.fromNorm == "auto" {
+				r.Count("checksender_reject_entitled_under_default_normalizers", 1)
+				if os.Getenv("C15_DEBUG") != "" {
+					fmt.Printf("DEBUG reject-entitled user=%q mf=%q reason=%s cfg=%q\n", m.AuthUser, m.MailFrom, reasonStr(rs), cfg.text)
+				}
+			}
 		} else if m.MFJudged {
 			k.senderRejectForeign++
 			nontrivial = true
